@@ -455,7 +455,7 @@ def engine(draw, profile=None, n_in=(1, 3), n_out=(1, 2), n_blocks=(1, 2), n_rul
                        "conjunction": draw(st.sampled_from(refmath.TNORMS)),
                        "disjunction": draw(st.sampled_from(refmath.SNORMS)),
                        "implication": draw(st.sampled_from(refmath.TNORMS)),
-                       "activation": draw(activation or activation_general()),
+                       "activation": draw(activation if activation is not None else activation_general()),
                        "rules": rules})
     return {"name": "E", "description": "", "inputs": inputs, "outputs": outputs, "blocks": blocks, "rg": rg,
             "profile": profile}
